@@ -15,6 +15,8 @@ from __future__ import annotations
 
 import json
 import os
+import keyword
+import re
 import random
 
 from sim import core
@@ -685,6 +687,21 @@ class World:
             if cs and all(c is not None and c[0] == 'same' for c in cs) and not _grew_around(al, tgt):
                 self.vio('listed-site-not-rewritten', {'site': repr(tgt), 'k': k}, strategy=name, where_kind=wk)
                 break
+        # "index j rewrites the j-th listed site": aiming by the listed site itself gives the same program
+        # (an expression cursor names its expression exactly; a statement cursor takes every candidate at
+        # or beneath it, so the two agree when no other listed site lies beneath the j-th)
+        alone = name in EXPR_SITED or not any(q != site_paths[where] and beneath_or_at(q, site_paths[where]) for q in site_paths) if wk == 'idx' else False
+        if wk == 'idx' and name not in RULES and hasattr(sites[where], 'resolve') and alone:
+            try:
+                g3 = strategy_call(name, f, sites[where], params, None)
+            except Exception as e:
+                self.vio('listed-site-rejected-as-aim', {'j': where, 'k': k, 'exc': f'{type(e).__name__}: {e}'[:200]}, strategy=name, where_kind=wk)
+            else:
+                known = set(_IDENT.findall(f.format()))
+                if _alpha(g3.format(), known) != _alpha(g.format(), known):
+                    self.vio('index-and-listed-site-differ', {'j': where, 'k': k, 'site': str(cursor_pos(sites[where]))[:120],
+                                                              'diff': _text_diff(_alpha(g.format(), known), _alpha(g3.format(), known))},
+                             strategy=name, where_kind=wk)
         # a rule object reused across applications answers as a freshly made one does
         if name in RULES:
             try:
@@ -935,6 +952,29 @@ def _canonical_rounding_block(s) -> bool:
             and isinstance(b.expr.arg, Var):
         return True
     return False
+
+
+_IDENT = re.compile(r'(?<![.\w])[A-Za-z_][A-Za-z_0-9]*')
+_NOT_NAMES = frozenset(keyword.kwlist) | {'fp', 'range', 'len', 'abs', 'min', 'max', 'sum', 'enumerate', 'zip', 'int', 'float',
+                                          'bool', 'list', 'tuple'}
+
+
+def _alpha(text: str, known: set) -> str:
+    """The text with every identifier the source program does not have (the fresh names a pass
+    makes up, which come from a process-wide counter) renamed by order of first appearance."""
+    names: dict = {}
+
+    def sub(m):
+        w = m.group(0)
+        if w in known or w in _NOT_NAMES:
+            return w
+        return names.setdefault(w, f'${len(names)}')
+    return _IDENT.sub(sub, text)
+
+
+def _text_diff(a: str, b: str) -> list:
+    import difflib
+    return [ln for ln in difflib.unified_diff(a.splitlines(), b.splitlines(), 'by-index', 'by-site', lineterm='', n=0)][:12]
 
 
 def _fmt(s) -> str:
